@@ -249,6 +249,10 @@ class VectorProperty(Property):
             out += [self.job("3", x, o) for x in v3_random(rng, 3000)]
         if unit.startswith("cvss2"):
             out += [self.job("2", x, o) for x in v2_random(rng, 3000)]
+            # every base combination under a dozen random choices of the optional metrics
+            for _ in range(12):
+                opt = ["%s:%s" % (m, rng.choice(S2.VALUES[m])) for m in S2.TEMPORAL + S2.ENVIRONMENTAL if rng.random() < 0.4]
+                out += [self.job("2", "/".join([b] + opt), o) for b in v2_all_base()]
         if unit.startswith("cvss4"):
             out += [self.job("4", x, o) for x in v4_random(rng, 3000)]
         return out
@@ -445,7 +449,7 @@ class C08(VectorProperty):
     id = "C08"
     native = "C08"
     trusted = ("A0", "A1", "A4", "A7", "FD")
-    technique = "clean_vector/rh_vector postconditions + regular-language inclusion of the emitted language in the official vectorString pattern (z3 regex)"
+    technique = "clean_vector/rh_vector postconditions and the builder's contract (incl. int/float twins of the version argument) + regular-language inclusion of the emitted language in the official vectorString pattern (z3 regex) + re-parse lemma running the real parser on the emitted structured string"
     contracts = split_by_module(acc(["clean_vector", "rh_vector"]))
 
 
@@ -888,7 +892,7 @@ def builder_sessions(rng, n):
 class C16(Property):
     id = "C16"
     trusted = ("A0", "A1", "A5")
-    technique = "contract on ask_interactively with ghost stdin/stdout; the answer loop verified as a block contract for one arbitrary iteration; ground selectability executions of the real loop"
+    technique = "contract on ask_interactively with ghost stdin/stdout; the answer loop verified as a shape-independent block contract (a rejected iteration is a no-op with an illegal answer, the accepting iteration is executed; postcondition over the recorded answers); ground selectability executions of the real loop"
 
     def jobs(self, tier):
         import contracts.interactive as CI
@@ -1015,7 +1019,7 @@ class C17(Property):
     id = "C17"
     exclude = ("*/schema:*",)  # schema validity of the JSON document is C10's business
     trusted = ("A0", "A1", "A5", "FD")
-    technique = "contract on cvss_calculator.main with modelled argparse namespace, ghost stdout and the callee contracts of the constructors, accessors and the builder"
+    technique = "contract on cvss_calculator.main with modelled argparse namespace and ghost stdout compared as text, verified against the callee contracts of the constructors, accessors, as_json and the builder, which are in the cone"
 
     def jobs(self, tier):
         # the calculator's own code, the builder it calls and the library functions whose
